@@ -61,6 +61,10 @@ func init() {
 			{[]string{"TZ=YYY+11:30", "LANG=C"}, filepath.Join(root, "a"), name},
 			{[]string{"TZ=UTC"}, filepath.Join(root, "a", "b"), "../" + name},
 			{[]string{"TZ=Pacific/Kiritimati"}, root, "a/" + name},
+			{[]string{"TZ=America/Caracas"}, filepath.Join(root, "a"), name},
+			{[]string{"TZ=Asia/Jerusalem"}, filepath.Join(root, "a"), name},
+			{[]string{"TZ=America/New_York"}, filepath.Join(root, "a"), name},
+			{[]string{"TZ=Europe/Moscow"}, filepath.Join(root, "a"), name},
 			{[]string{"TZ=UTC", "LC_ALL=POSIX"}, filepath.Join(root, "a"), name},
 			{[]string{"TZ=UTC", "LANG=de_DE.ISO-8859-1", "GOMAXPROCS=1"}, filepath.Join(root, "a"), name},
 			{[]string{"TZ=UTC", "LANG=en_US.UTF-8", "LC_CTYPE=cs_CZ.ISO-8859-2", "GOMAXPROCS=16"}, filepath.Join(root, "a"), name},
@@ -132,6 +136,12 @@ func multiValued() []sample {
 		sample{"pgp", "pgp3", pgpArmoredMulti([]string{"Alice", "Bob", "Carol", "Dave"})},
 		sample{"jwt", "jwtq", []byte("eyJhbGciOiJIUzI1NiJ9.eyJleHAiOiIxNzAwMDAwMDAwIiwiaWF0IjoiMTcwMDAwMDAwMCIsIm5iZiI6IjAiLCJzdWIiOiJ4In0.c2ln")},
 		sample{"pgp", "pgpcase", pgpCaseTwins()},
+		// times given with a numeric zone offset and a two-digit year 50..68 (the library re-interprets them under the
+		// process zone's historical rules when that zone has the same offset): a certificate and a bare UTCTime in a dump
+		sample{"der", "utctime-offset-cert-intl", xCert(xName([][]xATV{{{[]int{2, 5, 4, 3}, 12, "tz"}}}), 23, "600101194500-0400", 23, "680101030000+0300",
+			xSeq(xOID(1, 2, 840, 10045, 4, 3, 2)), xSeq(xSeq(xOID(1, 2, 840, 10045, 2, 1), xOID(1, 2, 840, 10045, 3, 1, 7)), xTLV(0x03, append([]byte{0, 4}, make([]byte, 64)...))))},
+		sample{"der", "utctime-offset-dump-intl", []byte{0x30, 0x11, 0x17, 0x0f, '5', '2', '0', '4', '2', '0', '0', '2', '3', '0', '+', '0', '3', '0', '0'}},
+		sample{"der", "utctime-offset-dump2-intl", []byte{0x30, 0x11, 0x17, 0x0f, '5', '2', '0', '4', '2', '7', '0', '2', '3', '0', '-', '0', '5', '0', '0'}},
 		sample{"pgp", "pgpintl", pgpArmoredMulti([]string{"Jiří Müller (日本) 🔑 <j@example.cz>", "İstanbul ıI", "Ελληνικά"})},
 		sample{"sshpub", "sshintl", []byte(sshKeyLines()[0] + " Jiří Müller (日本) 🔑 İı\n")},
 		sample{"pgp", "pgp1", pgpArmored(false)}, sample{"pgp", "pgppriv", pgpArmored(true)},
